@@ -278,6 +278,11 @@ func agree(pr *interp.PathResult, nr *NativeResult) (bool, string) {
 	default:
 		return true, ""
 	}
+	if len(pr.Failures) > 0 && len(nr.Obs) > len(pr.Obs) {
+		// an assertion failed on this path: the engine stops where the failing side
+		// is the only feasible one, the native run carries on
+		nr = &NativeResult{Obs: nr.Obs[:len(pr.Obs)]}
+	}
 	if len(pr.Obs) != len(nr.Obs) {
 		return false, fmt.Sprintf("observation count: engine %d native %d", len(pr.Obs), len(nr.Obs))
 	}
